@@ -20,25 +20,25 @@ Import ListNotations.
 Theorem C18_address_parametric : forall R (ops : numops R) A B
     (eqA : A -> A -> bool) (eqB : B -> B -> bool) (addr1 : tid -> A) (addr2 : tid -> B),
   injective eqA addr1 -> injective eqB addr2 ->
-  forall s p, run ops (sl_of eqA addr1) s p = run ops (sl_of eqB addr2) s p.
+  forall s p, machine_run ops (sl_of eqA addr1) s p = machine_run ops (sl_of eqB addr2) s p.
 Proof. exact @address_parametric. Qed.
 
 (* ... namely the result of the reference machine, which compares tape identities and contains no
    address at all (this is the machine that Run/RunC18.v executes against the crate) *)
 Theorem C18_addresses_irrelevant : forall R (ops : numops R) A (eqA : A -> A -> bool) addr,
   injective eqA addr ->
-  forall s p, run ops (sl_of eqA addr) s p = run ops sl_id s p.
+  forall s p, machine_run ops (sl_of eqA addr) s p = machine_run ops sl_id s p.
 Proof. exact @run_addresses_irrelevant. Qed.
 
 (* the same-list test is the ONLY channel: two machines whose tests agree are equal *)
 Theorem C18_same_list_only_channel : forall R (ops : numops R) sl1 sl2,
-  (forall a b, sl1 a b = sl2 a b) -> forall p s, run ops sl1 s p = run ops sl2 s p.
+  (forall a b, sl1 a b = sl2 a b) -> forall p s, machine_run ops sl1 s p = machine_run ops sl2 s p.
 Proof. exact @run_ext. Qed.
 
 (* tape positions are a function of append order only: a record produced on tape h sits at the
    position that was the tape's length, the tape grows by one, all other tapes are untouched *)
 Theorem C18_positions_append_order : forall R (ops : numops R) sl s i s' r h,
-  step ops sl s i = (s', ERec r) -> r_hist r = Some h -> h < length (tapes s) ->
+  machine_step ops sl s i = (s', ERec r) -> r_hist r = Some h -> h < length (tapes s) ->
   appended s s' r h.
 Proof. exact @positions_append_order. Qed.
 
@@ -51,8 +51,8 @@ Proof. intros a b H. rewrite H. reflexivity. Qed.
    recorded instead of panicking *)
 Example C18_nonvacuous :
   injective Nat.eqb (fun t : tid => t) /\ (forall k, injective Nat.eqb (fun t : tid => k + 8 * t)) /\
-  snd (run Fpops (sl_of Nat.eqb (fun _ => 0)) (init (R:=Z)) collision_program)
-  <> snd (run Fpops sl_id (init (R:=Z)) collision_program).
+  snd (machine_run Fpops (sl_of Nat.eqb (fun _ => 0)) (machine_init (R:=Z)) collision_program)
+  <> snd (machine_run Fpops sl_id (machine_init (R:=Z)) collision_program).
 Proof.
   split; [exact identity_is_injective|]. split; [exact shifted_is_injective | exact collision_observable].
 Qed.
